@@ -2,6 +2,8 @@
 #include "ops.h"
 #include <algorithm>
 #include <fenv.h>
+#include <signal.h>
+#include <stdio_ext.h>
 #include <locale.h>
 #include <math.h>
 #include <stdlib.h>
@@ -294,6 +296,73 @@ static void learn_array(Crystal_Array* a, ArrayModel& m, const std::vector<Cryst
 }
 
 // ------------------------------------------------------------------ C16 monitors
+// Process state other than memory ("leave no trace"): judged by its value after the call, so a call that changes
+// something and puts it back is fine.  Cheap items after every op, the rest at checkpoints (every 32nd op and at the
+// end of the run -- the minimiser then isolates the call).
+struct ProcState {
+  unsigned mxcsr_ctl = 0;      // SSE control bits: rounding, exception masks, FTZ/DAZ (status flags excluded)
+  unsigned short x87cw = 0;
+  int lowest_free_fd = -1;     // a descriptor left open takes the lowest free number
+  size_t out_buf = 0, err_buf = 0;
+  int out_lbf = 0, err_lbf = 0;
+  uint64_t env_hash = 0;
+  char cwd[512] = {0};
+  mode_t mask = 0;
+  void* handler[32] = {nullptr};
+  bool captured = false;
+};
+static ProcState g_ps;
+static unsigned read_mxcsr() { unsigned v; __asm__ volatile("stmxcsr %0" : "=m"(v)); return v & 0xffc0u; }
+static unsigned short read_x87cw() { unsigned short v; __asm__ volatile("fnstcw %0" : "=m"(v)); return v; }
+static int lowest_free_fd() { int fd = dup(0); if (fd >= 0) close(fd); return fd; }
+static uint64_t env_hash() {
+  uint64_t h = 1469598103934665603ull;
+  for (char** e = environ; e && *e; e++) { for (const char* q = *e; *q; q++) h = (h ^ (unsigned char)*q) * 1099511628211ull; h = (h ^ 0xff) * 1099511628211ull; }
+  return h;
+}
+static void procstate_read(ProcState& s, bool full) {
+  s.mxcsr_ctl = read_mxcsr(); s.x87cw = read_x87cw(); s.lowest_free_fd = lowest_free_fd();
+  // buffering MODE as setvbuf selects it (glibc: _IO_UNBUFFERED 0x2, _IO_LINE_BUF 0x200); buffer sizes change lazily at first use
+  s.out_buf = 0; s.err_buf = 0; s.out_lbf = stdout->_flags & 0x202; s.err_lbf = stderr->_flags & 0x202;
+  s.env_hash = env_hash();
+  if (!getcwd(s.cwd, sizeof s.cwd)) s.cwd[0] = 0;
+  if (full) {
+    s.mask = umask(0); umask(s.mask);
+    for (int sig = 1; sig < 32; sig++) { struct sigaction sa; s.handler[sig] = sigaction(sig, nullptr, &sa) == 0 ? (void*)sa.sa_handler : nullptr; }
+  }
+}
+void procstate_capture() { procstate_read(g_ps, true); g_ps.captured = true; }
+static void procstate_check(const char* fn, bool full) {
+  if (!g_ps.captured) return;
+  ProcState n;
+  procstate_read(n, full);
+  if (n.mxcsr_ctl != g_ps.mxcsr_ctl || n.x87cw != g_ps.x87cw) {
+    violation("global-state", fn, "floating-point control state changed: MXCSR control %04x -> %04x, x87 control word %04x -> %04x (rounding mode, exception masks, flush-to-zero)",
+              g_ps.mxcsr_ctl, n.mxcsr_ctl, g_ps.x87cw, n.x87cw);
+    unsigned full_mx; __asm__ volatile("stmxcsr %0" : "=m"(full_mx)); full_mx = (full_mx & 0x3fu) | g_ps.mxcsr_ctl; __asm__ volatile("ldmxcsr %0" : : "m"(full_mx));
+    __asm__ volatile("fldcw %0" : : "m"(g_ps.x87cw));
+  }
+  if (n.lowest_free_fd != g_ps.lowest_free_fd) {
+    violation("global-state", fn, "a file descriptor is left open (or a standard one was closed): lowest free descriptor %d -> %d", g_ps.lowest_free_fd, n.lowest_free_fd);
+    g_ps.lowest_free_fd = n.lowest_free_fd;
+  }
+  if (n.out_buf != g_ps.out_buf || n.err_buf != g_ps.err_buf || n.out_lbf != g_ps.out_lbf || n.err_lbf != g_ps.err_lbf) {
+    violation("global-state", fn, "buffering mode of a standard stream changed (stdout flags %03x -> %03x, stderr %03x -> %03x)", g_ps.out_lbf, n.out_lbf, g_ps.err_lbf, n.err_lbf);
+    g_ps.out_buf = n.out_buf; g_ps.err_buf = n.err_buf; g_ps.out_lbf = n.out_lbf; g_ps.err_lbf = n.err_lbf;
+  }
+  if (n.env_hash != g_ps.env_hash) { violation("global-state", fn, "the environment (environ) changed"); g_ps.env_hash = n.env_hash; }
+  if (strcmp(n.cwd, g_ps.cwd)) {
+    violation("global-state", fn, "working directory is '%s' after the call, was '%s'", n.cwd, g_ps.cwd);
+    if (chdir(g_ps.cwd) != 0) snprintf(g_ps.cwd, sizeof g_ps.cwd, "%s", n.cwd);
+  }
+  if (full) {
+    if (n.mask != g_ps.mask) { violation("global-state", "(since last checkpoint)", "umask %03o -> %03o", (unsigned)g_ps.mask, (unsigned)n.mask); umask(g_ps.mask); }
+    for (int sig = 1; sig < 32; sig++)
+      if (n.handler[sig] != g_ps.handler[sig]) { violation("global-state", "(since last checkpoint)", "disposition of signal %d changed", sig); g_ps.handler[sig] = n.handler[sig]; }
+  }
+}
+void procstate_final() { procstate_check("(end of run)", true); }
+
 static void purity_monitors(Exec& ex, const Op& op) {
   if (g_table_store_seen) {
     std::string which;
@@ -328,7 +397,8 @@ static void purity_monitors(Exec& ex, const Op& op) {
       violation("global-state", SH->cur_fn, "%ld bytes written to stderr by a call that is not a deprecation diagnostic", se - ex.stderr_expected);
     ex.stderr_expected = se;
   }
-  if (fegetround() != FE_TONEAREST) violation("global-state", SH->cur_fn, "rounding mode changed");
+  if (fegetround() != FE_TONEAREST) { violation("global-state", SH->cur_fn, "rounding mode changed"); fesetround(FE_TONEAREST); }
+  procstate_check(SH->cur_fn, ex.seq % 32 == 0);
   for (auto& kv : ex.handles) {
     Handle& h = kv.second;
     if (h.type != HT_ERROR || !h.p) continue;
